@@ -33,6 +33,14 @@ def lean_str(s: str) -> str:
     return '"' + s.replace("\\", "\\\\").replace('"', '\\"') + '"'
 
 
+class _UsingHidden(str):
+    """name of the right-hand copy of a `JOIN ... USING (c)` column: an unqualified `c` denotes the left-hand copy (for an inner
+    join the two are equal on every result row)"""
+
+
+UNIT_REL = '(Rel.groupBy [] [] (Rel.table "_dual"))'  # `SELECT <exprs>` without FROM: exactly one empty row, whatever the database holds
+
+
 class Translator:
     """SQL (sqlglot AST) -> Lean `Rel` term.
     `schemas`: table name -> list of column names; `coltypes`: table name -> list of types ('int' | 'rat' | 'bool' | 'str' | 'any'),
@@ -41,9 +49,12 @@ class Translator:
 
     AGGS = ("Min", "Max", "Count", "Sum")
 
-    def __init__(self, schemas, params=None, coltypes=None):
+    def __init__(self, schemas, params=None, coltypes=None, colparams=None):
         self.schemas = schemas
         self.coltypes = coltypes if coltypes is not None else {}
+        # column name -> Lean variable of type `Expr`: a column reference with that (marker) name stands for an opaque scalar expression
+        # the code interpolates into the statement (e.g. an equi-join key); it is not resolved against the schema
+        self.colparams = dict(colparams or {})
         self.params = {k: (v if isinstance(v, tuple) else (v, "any")) for k, v in (params or {}).items()}
         self.notes: list[str] = []
         self.used_params: list[str] = []
@@ -55,13 +66,20 @@ class Translator:
     def resolve(self, col, scope) -> int:
         name = col.name
         tbl = col.table or None
-        hits = [i for i, (a, c, _) in enumerate(scope) if c is not None and c.lower() == name.lower() and (tbl is None or (a or "").lower() == tbl.lower())]
+        hits = [i for i, (a, c, _) in enumerate(scope) if c is not None and c.lower() == name.lower() and (tbl is None or (a or "").lower() == tbl.lower())
+                and not (tbl is None and isinstance(c, _UsingHidden))]
         if len(hits) != 1:
             raise Untranslatable(f"column {col.sql()} resolves to {len(hits)} columns in scope {[(a, c) for a, c, _ in scope]}")
         return hits[0]
 
     def expr(self, e, scope) -> str:
         return self.expr_t(e, scope)[0]
+
+    def _colparam(self, name) -> str:
+        v = self.colparams[name]
+        if v not in self.used_params:
+            self.used_params.append(v)
+        return v
 
     def _agg_node(self, e):
         from sqlglot import exp
@@ -91,12 +109,19 @@ class Translator:
                     g["aggs"].append(a)
                     g["aggt"].append(t)
                 return f"(Expr.col {len(g['keys']) + g['aggs'].index(a)})", g["aggt"][g["aggs"].index(a)]
+            if isinstance(e, exp.Column) and not e.table and e.name in self.colparams:
+                t = self._colparam(e.name)
+                if t not in g["keys"]:
+                    raise Untranslatable(f"{e.sql()} is used next to aggregates but is not a group key")
+                return f"(Expr.col {g['keys'].index(t)})", "any"
             if isinstance(e, exp.Column):
                 i = self.resolve(e, g["scope"])
                 t = f"(Expr.col {i})"
                 if t not in g["keys"]:
                     raise Untranslatable(f"{e.sql()} is used next to aggregates but is not a group key")
                 return f"(Expr.col {g['keys'].index(t)})", g["scope"][i][2]
+        if isinstance(e, exp.Column) and not e.table and e.name in self.colparams:
+            return self._colparam(e.name), "any"
         if isinstance(e, exp.Column):
             i = self.resolve(e, scope)
             return f"(Expr.col {i})", scope[i][2]
@@ -191,6 +216,8 @@ class Translator:
                 return (f"(Expr.toRat {a})" if t == "int" else a), "rat"
             if to in ("INT", "INTEGER", "BIGINT") and t == "bool":
                 return f"(Expr.boolToInt {a})", "int"  # TRUE -> 1, FALSE -> 0, NULL -> NULL on every dialect splink supports
+            if to in ("BIGINT", "INT", "INTEGER", "INT8", "HUGEINT") and t == "int":
+                return a, "int"  # the model's integers are unbounded: a cast between integer types is the identity (overflow is outside the model)
             raise Untranslatable(f"cast of a {t} value to {to}")
         raise Untranslatable(f"expression {type(e).__name__}: {e.sql()[:80]}")
 
@@ -356,15 +383,39 @@ class Translator:
                 raise Untranslatable(f"clause {k}")
         frm = node.args.get("from_") or node.args.get("from")
         if frm is None:
-            raise Untranslatable("SELECT without FROM")
-        rel, scope = self.source(frm.this)
+            if node.args.get("joins") or node.args.get("where") is not None or node.args.get("group") is not None:
+                raise Untranslatable("SELECT without FROM but with JOIN / WHERE / GROUP BY")
+            rel, scope = UNIT_REL, []
+        else:
+            rel, scope = self.source(frm.this)
         for j in node.args.get("joins") or []:
             side = (j.side or "").upper()
             kind = (j.kind or "").upper()
-            if side not in ("", "LEFT") or kind not in ("", "INNER") or j.args.get("using"):
+            if side not in ("", "LEFT") or kind not in ("", "INNER"):
                 raise Untranslatable(f"join {side} {kind}")
             rb, sb = self.source(j.this)
             on = j.args.get("on")
+            using = j.args.get("using")
+            if using:
+                # `a INNER JOIN b USING (c1, ..)` = `ON a.c1 = b.c1 AND ..` (SQL equality: NULL never joins); an unqualified c_i afterwards is a's
+                if side == "LEFT" or on is not None:
+                    raise Untranslatable("LEFT JOIN ... USING / USING together with ON")
+                conds = []
+                for u in using:
+                    nm = u.name.lower()
+                    li = [i for i, (_, c, _) in enumerate(scope) if c is not None and c.lower() == nm and not isinstance(c, _UsingHidden)]
+                    ri = [i for i, (_, c, _) in enumerate(sb) if c is not None and c.lower() == nm]
+                    if len(li) != 1 or len(ri) != 1:
+                        raise Untranslatable(f"USING ({u.name}): {len(li)} columns on the left, {len(ri)} on the right")
+                    conds.append(f"(Expr.cmp Cmp.eq (Expr.col {li[0]}) (Expr.col {len(scope) + ri[0]}))")
+                    a_, c_, t_ = sb[ri[0]]
+                    sb = sb[: ri[0]] + [(a_, _UsingHidden(c_), t_)] + sb[ri[0] + 1:]
+                p = conds[0]
+                for c in conds[1:]:
+                    p = f"(Expr.and {p} {c})"
+                rel = f"(Rel.join false {p} {rel} {rb} {len(sb)})"
+                scope = scope + sb
+                continue
             if on is None:
                 raise Untranslatable("join without ON")
             both = scope + sb
@@ -408,6 +459,8 @@ class Translator:
                     raise Untranslatable("IN subquery with more than one column")
                 rel = f"(Rel.whereIn {'true' if neg else 'false'} {self.expr(inner.this, scope)} {sub} {rel})"
         sel = list(node.expressions)
+        if any(isinstance(c, _UsingHidden) for _, c, _ in scope) and any(isinstance(s_, exp.Star) or (isinstance(s_, exp.Column) and isinstance(s_.this, exp.Star)) for s_ in sel):
+            raise Untranslatable("SELECT * over JOIN ... USING (the joined column appears once in SQL)")
         names = []
         for s_ in sel:
             if isinstance(s_, exp.Star):
@@ -516,6 +569,45 @@ class Translator:
             self.notes.append("ORDER BY dropped (bag semantics)")
         self.out_types = types
         return rel, out_cols
+
+    def statement_top(self, sql: str, dialect: str = "duckdb"):
+        """A statement with a top-level `ORDER BY e [DESC] LIMIT n`: -> (term of the statement without them, columns,
+        (term of `e` over the OUTPUT row, desc) or None, limit text or None).  `Rel` has bag semantics; the ordering and the cut are
+        applied by `Rel.IsOrderLimit` (every tie resolution allowed) in the hand-written control flow."""
+        import sqlglot
+        from sqlglot import exp
+
+        try:
+            tree = sqlglot.parse_one(sql, read=dialect)
+        except Exception as e:  # noqa: BLE001
+            raise Untranslatable(f"sqlglot cannot parse: {e}") from e
+        if not isinstance(tree, exp.Select):
+            raise Untranslatable(f"query {type(tree).__name__}")
+        order, limit = tree.args.get("order"), tree.args.get("limit")
+        tree.set("order", None)
+        tree.set("limit", None)
+        term, cols = self.query(tree)
+        types = list(self.out_types)
+        o = None
+        if order is not None:
+            if len(order.expressions) != 1:
+                raise Untranslatable("ORDER BY of several keys")
+            od = order.expressions[0]
+            oscope = [(None, c, t) for c, t in zip(cols, types)]
+            saved = (self._g, self._extra)
+            self._g, self._extra = None, None
+            try:
+                o = (self.expr(od.this, oscope), bool(od.args.get("desc")))
+            finally:
+                self._g, self._extra = saved
+        lim = None
+        if limit is not None:
+            le = limit.expression
+            if not isinstance(le, exp.Literal) or le.is_string or not re.fullmatch(r"\d+", le.this):
+                raise Untranslatable(f"LIMIT {le.sql()}")
+            lim = le.this
+        self.out_types = types
+        return term, cols, o, lim
 
     def statement(self, sql: str, dialect: str = "duckdb"):
         import sqlglot
@@ -1864,8 +1956,287 @@ def write_oto() -> list[str]:
     return errors
 
 
+# --------------------------------------------------------------------------------------------------------------- blocking-analysis counting spec
+BC_NL = 977  # the n_largest argument of the capture runs: a number that occurs nowhere else in the statements
+BC_COLS = ["unique_id", "mka0", "mka1", "mka2", "mkb0", "mkb1", "mkb2"]  # mka_i / mkb_i: MARKER columns, the i-th left / right equi-join key expression
+BC_SIDE_L = "__splink__count_comparisons_from_blocking_l"
+BC_SIDE_R = "__splink__count_comparisons_from_blocking_r"
+BC_BLOCKS = "__splink__block_counts"
+BC_TOTAL = "__splink__total_of_block_counts"
+BC_CONCAT = "__splink__df_concat"
+# (tag, number of input tables, link type, number of equi-join keys, public function)
+BC_RUNS = [
+    ("self1", 1, "dedupe_only", 1, "count"),
+    ("two2", 2, "link_only", 2, "count"),
+    ("self2", 2, "link_and_dedupe", 2, "count"),
+    ("self3", 3, "link_only", 3, "count"),
+    ("two1", 2, "link_only", 1, "count"),
+    ("self0", 1, "dedupe_only", 0, "count"),
+    ("two0", 2, "link_only", 0, "count"),
+    ("nlSelf1", 1, "dedupe_only", 1, "n_largest"),
+    ("nlTwo2", 2, "link_only", 2, "n_largest"),
+    ("nlSelf3", 3, "link_and_dedupe", 3, "n_largest"),
+]
+
+
+def _bc_run(ntab, link_type, k, fn):
+    """Run the real public function on DuckDB; -> (recorded pipelines, [(alias, physical name)] of the registered inputs)."""
+    import pandas as pd
+
+    from splink import DuckDBAPI
+    from splink.internals.blocking_analysis import count_comparisons_from_blocking_rule, n_largest_blocks
+    from splink.internals.database_api import DatabaseAPI
+
+    vals = {"mka0": ["x", "x", None], "mka1": ["p", "q", "p"], "mka2": ["u", "u", "u"], "mkb0": ["x", "y", "x"], "mkb1": ["p", "p", "q"], "mkb2": ["u", None, "u"]}
+    dfs = [pd.DataFrame(dict({"unique_id": [3 * t + 1, 3 * t + 2, 3 * t + 3]}, **{c: pd.array(v, dtype="string") for c, v in vals.items()}))[BC_COLS] for t in range(ntab)]
+    rule = " and ".join(f"l.mka{i} = r.mkb{i}" for i in range(k)) or "l.mka0 < r.mkb0"
+    reg = []
+    orig = DatabaseAPI.register_multiple_tables
+
+    def wrap(api, *a, **kw):
+        out = orig(api, *a, **kw)
+        reg.extend((alias, sdf.physical_name) for alias, sdf in out.items())
+        return out
+
+    DatabaseAPI.register_multiple_tables = wrap
+    try:
+        with Capture() as cap:
+            api = DuckDBAPI()
+            if fn == "count":
+                count_comparisons_from_blocking_rule(table_or_tables=dfs, blocking_rule=rule, link_type=link_type, db_api=api, compute_post_filter_count=False)
+            else:
+                n_largest_blocks(table_or_tables=dfs, blocking_rule=rule, link_type=link_type, db_api=api, n_largest=BC_NL).as_record_dict()
+    finally:
+        DatabaseAPI.register_multiple_tables = orig
+    return cap.rec, reg
+
+
+def _bc_indices(seg: str, pat: str):
+    return [tuple(int(x) for x in m.groups()) for m in re.finditer(pat, seg)]
+
+
+def _bc_skeleton(sql: str, k: int, fam: str | None, errors, what):
+    """The statement with the loop-generated lists collapsed: `<ITEMS>` = `K0 as key_0, ...`, `<KEYS>` = `K0, ...` (GROUP BY),
+    `<NAMES>` = `key_0, ...` (USING / select list of n_largest_blocks); each list must enumerate 0..k-1 in order."""
+    s = sql
+    other = {"mka": "mkb", "mkb": "mka"}.get(fam or "")
+    if other and re.search(other + r"\d", s):
+        errors.append(f"{what}: a key expression of the other side occurs in the statement: {sql[:200]}")
+    if fam:
+        s = re.sub(fam + r"(\d+)", r"K\1", s)
+
+    def collapse(s, item_pat, idx_pat, token, width):
+        def rep(m):
+            idx = _bc_indices(m.group(0), idx_pat)
+            if idx != [tuple([i] * width) for i in range(k)]:
+                errors.append(f"{what}: the list {m.group(0)!r} does not enumerate the {k} keys in order")
+            return token
+        return re.sub(f"(?:{item_pat})(?:, (?:{item_pat}))*", rep, s)
+
+    s = collapse(s, r"K\d+ as key_\d+", r"K(\d+) as key_(\d+)", "<ITEMS>", 2)
+    s = collapse(s, r"K\d+", r"K(\d+)", "<KEYS>", 1)
+    s = collapse(s, r"key_\d+", r"key_(\d+)", "<NAMES>", 1)
+    return s
+
+
+def capture_bcount():
+    """The counting statements of blocking_analysis.py (`_count_comparisons_from_blocking_rule_pre_filter_conditions_sqls`, the total taken by
+    `_count_comparisons_generated_from_blocking_rule`, the final statement of `n_largest_blocks`), captured from real runs of the public
+    functions with MARKER key columns, for 0, 1, 2 and 3 equi-join keys and both table set-ups (self-join of `__splink__df_concat`;
+    the two registered tables of a two-table link_only job).  -> dict(runs={tag: dict(stmts=[(name, sql)], k, ntab, two, fn)}, errors)"""
+    errors: list[str] = []
+    runs = {}
+    for tag, ntab, lt, k, fn in BC_RUNS:
+        rec, reg = _bc_run(ntab, lt, k, fn)
+        two = lt == "link_only" and ntab == 2
+        pm = _phys_map(rec)
+        roles = {}
+        for i, (alias, phys) in enumerate(reg):
+            roles[alias] = f"input_{i}"
+            roles[phys] = f"input_{i}"
+        if len(rec) != 1:
+            errors.append(f"{tag}: {len(rec)} pipelines executed, expected one")
+            continue
+        stmts = [(nm, _norm(_subst(_subst(sql, pm), roles))) for nm, sql in rec[0]["ctes"]]
+        names = [nm for nm, _ in stmts]
+        want = ([] if two else [BC_CONCAT]) + ([BC_SIDE_L, BC_SIDE_R] if k else []) + [BC_BLOCKS] + ([BC_TOTAL] if fn == "count" else [BC_BLOCKS])
+        if names != want:
+            errors.append(f"{tag}: the pipeline issues {names}, expected {want}")
+            continue
+        if fn == "n_largest":
+            if not re.search(rf" limit {BC_NL}$", stmts[-1][1]):
+                errors.append(f"{tag}: the last statement does not end in `limit <n_largest>`: {stmts[-1][1][:300]}")
+            stmts[-1] = ("__splink__block_counts", stmts[-1][1])
+        runs[tag] = {"stmts": stmts, "k": k, "ntab": ntab, "two": two, "fn": fn}
+
+    # ---- uniformity: the statements may differ between the runs only in the key lists and in the tables the side statements read
+    skel = {}
+    for tag, r in runs.items():
+        k, two = r["k"], r["two"]
+        pos = 0
+        for nm, sql in r["stmts"]:
+            pos += 1
+            what = f"{tag}/{nm}"
+            if nm == BC_CONCAT:
+                continue
+            if nm in (BC_SIDE_L, BC_SIDE_R):
+                fam = "mka" if nm == BC_SIDE_L else "mkb"
+                tbl = (("input_0" if nm == BC_SIDE_L else "input_1") if two else BC_CONCAT)
+                if not re.search(r" from " + re.escape(tbl) + r" group by ", sql):
+                    errors.append(f"{what}: does not read {tbl}: {sql[:200]}")
+                sk = _bc_skeleton(sql.replace(f" from {tbl} ", " from <T> "), k, fam, errors, what)
+                key = "side_l" if nm == BC_SIDE_L else "side_r"
+            elif nm == BC_TOTAL:
+                sk, key = sql, "total"
+            elif nm == BC_BLOCKS and k == 0:
+                sk, key = sql, ("nokeys_two" if two else "nokeys_self")
+            elif nm == BC_BLOCKS and r["fn"] == "n_largest" and pos == len(r["stmts"]):
+                sk, key = _bc_skeleton(sql, k, None, errors, what), "nl_final"
+            else:
+                sk, key = _bc_skeleton(sql, k, None, errors, what), "blocks"
+            if re.search(r"mk[ab]\d|(?<![A-Za-z_])K\d|key_\d", sk):
+                errors.append(f"{what}: a key occurs outside the loop-generated lists: {sql[:300]}")
+            if key in skel and skel[key][1] != sk:
+                errors.append(f"statement {nm} differs between the runs {skel[key][0]} and {tag} in more than the key lists / input tables: {skel[key][1]!r} vs {sk!r}")
+            skel.setdefault(key, (tag, sk))
+    for key in ("side_l", "side_r", "blocks", "total", "nokeys_self", "nokeys_two", "nl_final"):
+        if key not in skel and not errors:
+            errors.append(f"no run produced the {key} statement")
+    return {"runs": runs, "errors": errors, "skeletons": {k_: v[1] for k_, v in skel.items()}}
+
+
+BC_COUNT = "__splink__df_count"
+# (tag, number of input tables, link type, source_dataset_column_name)
+BC_RC_RUNS = [("all", 1, "dedupe_only", None), ("bySd", 2, "link_only", "mksd"), ("bySd", 3, "link_and_dedupe", "mksd"), ("bySdDefault", 2, "link_only", None)]
+
+
+def capture_rowcounts(errors):
+    """`_row_counts_per_input_table`: the `__splink__df_count` statement, captured from real runs of
+    cumulative_comparisons_to_be_scored_from_blocking_rules_data.  The source dataset column is a MARKER name (`mksd`) and becomes the
+    parameter `sd`; the run with the default name must give the same statement up to that name.  -> {tag: sql}"""
+    import pandas as pd
+
+    from splink import DuckDBAPI
+    from splink.internals.blocking_analysis import cumulative_comparisons_to_be_scored_from_blocking_rules_data
+
+    found = {}
+    for tag, ntab, lt, sdname in BC_RC_RUNS:
+        dfs = [pd.DataFrame({"unique_id": [3 * t + 1, 3 * t + 2, 3 * t + 3], "a": pd.array(["x", "x", None], dtype="string")}) for t in range(ntab)]
+        kw = {} if sdname is None else {"source_dataset_column_name": sdname}
+        with Capture() as cap:
+            api = DuckDBAPI()
+            cumulative_comparisons_to_be_scored_from_blocking_rules_data(table_or_tables=dfs, blocking_rules=["l.a = r.a"], link_type=lt, db_api=api, **kw)
+        hits = [e for e in cap.rec if e["out"][0] == BC_COUNT]
+        if len(hits) != 1 or [nm for nm, _ in hits[0]["ctes"]] != [BC_CONCAT, BC_COUNT]:
+            errors.append(f"rowcounts/{tag}: expected one pipeline [{BC_CONCAT}, {BC_COUNT}], got {[[nm for nm, _ in e['ctes']] for e in hits]}")
+            continue
+        sql = _norm(hits[0]["ctes"][1][1])
+        if tag == "bySdDefault":
+            sql, tag = sql.replace('"source_dataset"', '"mksd"'), "bySd"
+        if tag in found and found[tag] != sql:
+            errors.append(f"rowcounts/{tag}: the statement differs between link types / source dataset column names: {found[tag]!r} vs {sql!r}")
+        found.setdefault(tag, sql)
+    return found
+
+
+def write_bcount() -> list[str]:
+    """(Re)generate Generated/BCountSql.lean.  Returns error strings."""
+    cap = capture_bcount()
+    errors = list(cap["errors"])
+    L = ["import SplinkVerif.Model.Rel"]
+    L.append("/-! GENERATED by harness/translate/tsql.py from the SQL that `blocking_analysis.py: count_comparisons_from_blocking_rule` and")
+    L.append("`n_largest_blocks` emit on the current tree (captured from real runs with MARKER key columns).  Do not edit.")
+    L.append("")
+    L.append("Parameters `kl_i` / `kr_i : Expr` = the i-th left / right equi-join key expression (over a row of the table the side statement reads);")
+    L.append("`input_i` = the i-th registered input table (columns " + ", ".join(BC_COLS) + " in the capture runs).  Run tags: `self<k>` = self-join of")
+    L.append("`__splink__df_concat` with k keys, `two<k>` = the two tables of a two-table link_only job, `nl…` = n_largest_blocks.")
+    L.append("The statements of the runs differ only in the key lists and in the tables the side statements read (checked by the capture):")
+    for k_, v in sorted(cap.get("skeletons", {}).items()):
+        L.append(f"  {k_}: `{v}`")
+    L.append("-/")
+    L.append("namespace SplinkVerif.Gen.BCountSql")
+    L.append("open SplinkVerif.Rel")
+    L.append("")
+    for tag, r in cap["runs"].items():
+        k = r["k"]
+        schemas = {f"input_{i}": list(BC_COLS) for i in range(r["ntab"])}
+        coltypes = {f"input_{i}": ["int"] + ["str"] * 6 for i in range(r["ntab"])}
+        calls = []
+        ok = True
+        n = len(r["stmts"])
+        for pos, (nm, sql) in enumerate(r["stmts"]):
+            cp = {}
+            if nm == BC_SIDE_L:
+                cp = {f"mka{i}": f"kl{i}" for i in range(k)}
+            elif nm == BC_SIDE_R:
+                cp = {f"mkb{i}": f"kr{i}" for i in range(k)}
+            tr = Translator(schemas, {}, coltypes, colparams=cp)
+            final_nl = r["fn"] == "n_largest" and pos == n - 1
+            ident = tag + {BC_CONCAT: "Concat", BC_SIDE_L: "CountL", BC_SIDE_R: "CountR", BC_BLOCKS: "Blocks", BC_TOTAL: "Total"}[nm] + ("Top" if final_nl else "")
+            order = lim = None
+            try:
+                if final_nl:
+                    term, cols, order, lim = tr.statement_top(sql)
+                    if order is None or lim != str(BC_NL):
+                        raise Untranslatable(f"expected ORDER BY ... LIMIT {BC_NL}")
+                else:
+                    term, cols = tr.statement(sql)
+            except Untranslatable as e:
+                errors.append(f"bcount/{tag}/{nm}: {e}")
+                L.append(f"-- UNTRANSLATABLE: {tag}/{nm}: `{sql}`")
+                ok = False
+                continue
+            want_used = list(cp.values())
+            if tr.used_params != want_used:
+                errors.append(f"bcount/{tag}/{nm}: the statement uses the key parameters {tr.used_params}, expected {want_used} in this order")
+            schemas[nm] = [c if c is not None else f"_c{i}" for i, c in enumerate(cols)]
+            coltypes[nm] = list(tr.out_types)
+            L.append(f"/-- run `{tag}`, `{nm}`: `{sql}` ; columns {list(cols)} -/")
+            args = "".join(f" ({p_} : Expr)" for p_ in want_used)
+            L.append(f"def {ident}{args} : Rel :=\n  {term}")
+            L.append("")
+            if final_nl:
+                L.append(f"/-- run `{tag}`: the `ORDER BY` key of the last statement over its OUTPUT row, `desc`; the statement ends in `LIMIT <n_largest>` -/")
+                L.append(f"def {ident}Key : Expr := {order[0]}")
+                L.append(f"def {ident}Desc : Bool := {'true' if order[1] else 'false'}")
+                L.append("")
+            calls.append((nm, ident + "".join(f" {p_}" for p_ in want_used)))
+        if ok:
+            ps = [f"kl{i}" for i in range(k)] + [f"kr{i}" for i in range(k)]
+            args = "".join(f" ({p_} : Expr)" for p_ in ps)
+            body = [c for c in calls if c[0] != BC_CONCAT]
+            L.append(f"/-- run `{tag}`: the statements after `__splink__df_concat`, in the order the code issues them -/")
+            L.append(f"def {tag}Stmts{args} : List Stmt :=\n  [" + ", ".join(f"⟨{lean_str(nm)}, {c}⟩" for nm, c in body) + "]")
+            L.append("")
+    rc = capture_rowcounts(errors)
+    for tag, ident, cp in (("all", "rowCountAll", {}), ("bySd", "rowCountBySd", {"mksd": "sd"})):
+        sql = rc.get(tag)
+        if sql is None:
+            errors.append(f"rowcounts: no statement captured for {tag}")
+            continue
+        tr = Translator({BC_CONCAT: ["mksd", "unique_id", "a"]}, {}, {BC_CONCAT: ["str", "int", "str"]}, colparams=cp)
+        try:
+            term, cols = tr.statement(sql)
+        except Untranslatable as e:
+            errors.append(f"rowcounts/{tag}: {e}")
+            L.append(f"-- UNTRANSLATABLE: rowcounts/{tag}: `{sql}`")
+            continue
+        if tr.used_params != list(cp.values()) or list(cols) != ["count"]:
+            errors.append(f"rowcounts/{tag}: parameters {tr.used_params}, columns {list(cols)} (expected {list(cp.values())}, ['count'])")
+        L.append(f"/-- `_row_counts_per_input_table`, `{BC_COUNT}` ({'dedupe_only' if tag == 'all' else 'link_only / link_and_dedupe; `sd` = the source dataset column'}): `{sql}` ; columns {list(cols)} -/")
+        L.append(f"def {ident}{''.join(f' ({v} : Expr)' for v in cp.values())} : Rel :=\n  {term}")
+        L.append("")
+    L.append("end SplinkVerif.Gen.BCountSql")
+    text = "\n".join(L) + "\n"
+    p = GEN / "BCountSql.lean"
+    if not p.exists() or p.read_text() != text:
+        p.write_text(text)
+    return errors
+
+
 # --------------------------------------------------------------------------------------------------------------- isolation
-WRITERS = {"cc": "write_cc", "multi": "write_multi", "gm": "write_gm", "acc": "write_acc", "desc": "write_desc", "em": "write_em", "block": "write_block", "oto": "write_oto"}
+WRITERS = {"cc": "write_cc", "multi": "write_multi", "gm": "write_gm", "acc": "write_acc", "desc": "write_desc", "em": "write_em", "block": "write_block", "oto": "write_oto",
+           "bcount": "write_bcount"}
 
 
 def run_isolated(which: str, timeout: int = 600) -> list[str]:
